@@ -248,7 +248,7 @@ pub fn run_c14(tier: Tier) -> i32 {
         Act::blk(3900),
         px_at_spot(),
     ];
-    let depth = tier.pick(3, 4);
+    let depth = tier.pick(4, 5);
     let mut e = Exp::new("admin states", cfg.clone(), alpha.clone(), vec![seed.clone()], depth);
     e.traders = T3.to_vec();
     let mut exps = vec![e];
@@ -353,7 +353,7 @@ pub fn run_c20(tier: Tier) -> i32 {
     let mut c = Cfg { oi_cap: 150 * D, holding_cap: 3 * D, ..Cfg::default() };
     c.imr = 100_000;
     let seeds = vec![vec![], vec![Act::Whitelist { by: "owner".into(), who: "alice".into(), add: true }]];
-    let mut e = Exp::new("caps", c.clone(), alpha.clone(), seeds.clone(), tier.pick(3, 4));
+    let mut e = Exp::new("caps", c.clone(), alpha.clone(), seeds.clone(), tier.pick(4, 5));
     e.traders = T2.to_vec();
     let mut exps = vec![e];
     if tier == Tier::Thorough {
